@@ -32,10 +32,10 @@ GAGGS = ["sum", "count", "size", "mean", "var", "std"]
 
 @st.composite
 def case_strategy(draw, tier="quick"):
-    t = draw(dc.table())
+    t = draw(dc.table(categorical=True))
     cuts = draw(dc.cuts_for(len(t["rows"])))
     group = draw(st.sampled_from([None, None, "col", "series", "mod2"]))
-    if group == "mod2" and t["gkind"] == "str":
+    if group == "mod2" and t["gkind"] in ("str", "cat"):
         group = "series"
     expr = {"base": draw(st.sampled_from(["xy", "x", "y", "x", "z"])),
             "arith": draw(st.sampled_from([None, None, ["+", 1.5], ["*", 2.0], ["-", 0.25], ["r-", 3.0]])),
